@@ -47,6 +47,7 @@ typedef void (*myth_tls_destructor_fun_t)(void *);
 typedef struct myth_tls_key_entry {
   struct myth_tls_key_entry * next;
   myth_tls_destructor_fun_t destructor;
+  int posix;			/* created by pthread_key_create: destructor not called for NULL */
 } myth_tls_key_entry_t;
 
 /* the toplevel data structure to allocate unsed keys from */
